@@ -824,7 +824,7 @@ func init() {
 	register(&core.Check{
 		ID:      "C10",
 		Amplify: amplifyAPI,
-		Mech:    &core.Mech{Module: "SearchTrace", Project: mechAPI, Quick: 300, Thorough: 5000},
+		Mech:    &core.Mech{Module: "SearchTrace", Project: mechAPI, Quick: 200, Thorough: 5000},
 		Designs: append(histDesigns("assume"),
 			core.Design{Name: "incremental-keep", Module: "Incremental", Cfg: "Incremental_keep.cfg", Workers: 6, XmxMB: 4000, Timeout: 5 * time.Minute},
 			core.Design{Name: "incremental-wipe", Module: "Incremental", Cfg: "Incremental_wipe.cfg", Workers: 1, XmxMB: 2000, Timeout: 5 * time.Minute, ExpectViolation: "RefinesAPI"},
@@ -877,7 +877,7 @@ func init() {
 				}
 				res = append(res, gen.APICase("slicenb", nv, true, gen.ClauseCtors(clauses), false, nil, cfg, ev))
 			}
-			res = append(res, scanCandidates(env, "assume", env.Pick(40000, 600000), false, scanAssume)...)
+			res = append(res, scanCandidates(env, "assume", env.Pick(25000, 600000), false, scanAssume)...)
 			return res
 		},
 		Cover: func(t core.Case, cov map[string]int) bool {
